@@ -236,6 +236,11 @@ func genAolHistory(r *RNG, nBlocks int) []string {
 	g.extra = []string{sdk.AccAddress(a32).String(), sdk.AccAddress(a20).String(), "", "panacea1qqqq", "notanaddress",
 		strings.ToUpper(g.addrStr(0)), sdk.MustBech32ifyAddressBytes("cosmos", g.accts[1].Addr)}
 	g.add("# GENESIS %d %s", nAcc, "1000000000000")
+	burstAt := -1
+	if r.Chance(20) && nBlocks > 4 {
+		burstAt = 3 + r.Intn(nBlocks-4)
+	}
+	var burstTopic []string
 	for b := 0; b < nBlocks; b++ {
 		g.now += int64(1+r.Intn(5)) * 1_000_000_000
 		g.add("BLOCK %d", g.now)
@@ -318,7 +323,29 @@ func genAolHistory(r *RNG, nBlocks int) []string {
 			g.lines = append(g.lines, mlines...)
 			g.add("ENDTX")
 		}
-		doExport := r.Chance(12)
+		// a burst: one listed writer appends 11-18 records to one topic (three per transaction), so that offsets of two
+		// decimal digits exist (and are exported, imported and queried)
+		if burstAt == b && len(g.writers) > 0 {
+			p := strings.SplitN(pick(r, sortedKeys(g.writers)), "/", 3)
+			wi := -1
+			for i := range g.accts {
+				if len(p) == 3 && g.addrStr(i) == p[2] {
+					wi = i
+				}
+			}
+			if wi >= 0 {
+				for left := 11 + r.Intn(8); left > 0; {
+					g.add("TX %s %x", toks(feeDenom)+":1000", []byte(g.accts[wi].Addr))
+					for j := 0; j < 3 && left > 0; j++ {
+						g.add("M aol.AddRecord %s %s %s %s %s %s", toks(p[1]), toks(fmt.Sprintf("k%d", left)), toks(fmt.Sprintf("v%d", left)), toks(p[2]), toks(p[0]), toks(""))
+						left--
+					}
+					g.add("ENDTX")
+				}
+				burstTopic = p
+			}
+		}
+		doExport := r.Chance(12) || (burstTopic != nil && b == burstAt+1)
 		if doExport && r.Chance(60) && len(g.writers) > 0 {
 			// shape the state that is about to be exported: one topic loses ALL its writers (its records must survive
 			// the export), so that exports are not only taken from "tidy" states
@@ -349,6 +376,9 @@ func genAolHistory(r *RNG, nBlocks int) []string {
 			g.add("EXPORTIMPORT")
 		}
 		g.add("DUMP aol")
+		if burstTopic != nil && b >= burstAt {
+			g.add("Q aol.Record %s %s %d", toks(burstTopic[0]), toks(burstTopic[1]), 10+r.Intn(2))
+		}
 		// queries: a sample of topics / writers / records, including absent and malformed ones
 		for q := 0; q < 4; q++ {
 			o, t, w := g.someWriter()
